@@ -5,11 +5,13 @@ import (
 	"encoding/json"
 	"fmt"
 	"io"
+	"os"
 	"reflect"
 	"strconv"
 	"strings"
 	"testing"
 	"testing/iotest"
+	"time"
 
 	"github.com/hashicorp/go-bexpr/grammar"
 	"pgregory.net/rapid"
@@ -55,6 +57,20 @@ func c16Parse(t failer, test string, c *c16Case, text string, want grammar.Expre
 	if len(text) > 300 || len(text)%4 != 0 {
 		return // a quarter of the (short) texts: 8 more parses each
 	}
+	// ... or from a file: the same path over and over, rewritten in place, its modification time pinned (what
+	// `cp -p`, rsync -t or a coarse clock give): the file's CONTENT is what gets parsed
+	if c16Scratch == "" {
+		if f, err := os.CreateTemp("", "verif-c16-*.bexpr"); err == nil {
+			c16Scratch = f.Name()
+			f.Close()
+		}
+	}
+	if c16Scratch != "" && os.WriteFile(c16Scratch, []byte(text), 0o600) == nil && os.Chtimes(c16Scratch, c16Stamp, c16Stamp) == nil {
+		fgot, ferr := grammar.ParseFile(c16Scratch)
+		if ferr != nil || !reflect.DeepEqual(fgot, want) {
+			violation(t, "C16", test, c, "rendering %s written to a file and parsed with grammar.ParseFile: error %v, tree\n%s want:\n%s", strconv.Quote(text), ferr, dumpAST2(fgot), dumpAST(want))
+		}
+	}
 	for name, rd := range readersOf([]byte(text)) {
 		rgot, rerr := grammar.ParseReader("", rd)
 		if rerr != nil || !reflect.DeepEqual(rgot, want) {
@@ -62,6 +78,11 @@ func c16Parse(t failer, test string, c *c16Case, text string, want grammar.Expre
 		}
 	}
 }
+
+var (
+	c16Scratch string
+	c16Stamp   = time.Unix(1700000000, 0)
+)
 
 // chunkReader returns its data in the given chunk sizes; the LAST chunk comes together with io.EOF
 // (as http bodies of known length, flate streams and many hand-written readers do).
